@@ -3775,8 +3775,9 @@ class C11(Check):
         design_ref="DESIGN.md §5 C11",
         note="the completeness of the generated tables (every assignment a run performs is in `written`) is CHECKED by the run-time write "
         "trace on every generated model, not proved; `checkedIgnorable` (Control/Rule._which, HeadPump._curve_coeffs/_coeffs_curve_points) is shown by the translator (Gen.notReadBeforeWrite: never read / "
-        "write-dominates-read protocol / key-guarded memo, evidence in the generated comment lines); `assumedIgnorable` (Control/Rule._condition._backtrack, "
-        "WaterNetworkModel._inpfile, Rule._name, Reservoir._leak_status: written, not reset, not shown unread) is a "
+        "write-dominates-read protocol / key-guarded memo, evidence in the generated comment lines); `_condition._backtrack` is discharged by generated facts (Gen.backtrackKinds / presolveConditionClasses / backtrackConsumers / backtrackReaders, "
+        "decided in backtrack_facts, with the And/Or short-circuit model of Lemmas/FrameBacktrack.lean); Reservoir._leak_status turned out to be real state "
+        "(known finding, repair proposed); `assumedIgnorable` (WaterNetworkModel._inpfile, Rule._name: written, not reset, not shown irrelevant) is a "
         "hypothesis of the Lean theorems that only the rerun oracle checks. Modelled, not verified: the numerical solver (equal stores give "
         "equal results is an assumption of the frame theorem; reruns agree to ~1e-13, compared at 1e-9 relative because evaluator.cpp orders "
         "unknowns by heap address); registries / OrderedSets mutated in place (observer lists) are not slots; tables are class-level "
